@@ -28,7 +28,6 @@ Positions (documented outcome in brackets):
 """
 import collections
 import os
-import random
 import struct
 import sys
 import threading
@@ -105,7 +104,7 @@ class Stats(object):
     """cheap local counters for the hot loops, flushed into the Recorder once"""
 
     def __init__(self, R, pos):
-        self.R, self.pos, self.c, self.n = R, pos, collections.Counter(), 0
+        self.R, self.pos, self.c, self.n, self.ex = R, pos, collections.Counter(), 0, 0
 
     def flush(self, distinct_bulk=0):
         R, key = self.R, self.pos.replace("-", "_")
@@ -314,10 +313,15 @@ class DepFrames(object):
             t.target = nfc.clf.LocalTarget(brty)
             self.mac[("I", brty)], self.mac[("T", brty)] = i, t
         self.st = {"I": Stats(R, "dep-frame-initiator"), "T": Stats(R, "dep-frame-target")}
+        self.exhaustive = False      # inside an enumeration that is distinct by construction
 
     def check(self, role, brty, frame):
         st = self.st[role]
         st.n += 1
+        if self.exhaustive:
+            st.ex += 1
+        else:
+            self.R.case((st.pos, brty, frame))
         try:
             r = self.mac[(role, brty)].decode_frame(bytearray(frame))
         except self.CommErr as e:
@@ -336,6 +340,7 @@ class DepFrames(object):
         lo, hi = desc["ex_first"]
         shard = desc["shard"]
         n_ex = 0
+        self.exhaustive = True
         # (a) exhaustive short strings, every role and bit-rate framing (424F frames like 212F)
         for role in "IT":
             for brty in ("106A", "212F"):
@@ -369,6 +374,7 @@ class DepFrames(object):
                                 self.check(role, brty, dep_frame(bytes([c0, c1, a, b]), brty))
                                 n_ex += 1
         R.count("dep_frame_exhaustive", n_ex)
+        self.exhaustive = False
         # (c) systematic mutations of valid frames of every PDU type
         k = 0
         for role in "IT":
@@ -392,7 +398,7 @@ class DepFrames(object):
             self.check(role, brty, random_mutation(rng, fr, len_pos=1 if brty == "106A" else 0))
         for role in "IT":
             self.st[role].flush()
-        R.bulk(self.st["I"].n + self.st["T"].n, self.st["I"].n + self.st["T"].n)
+        R.bulk(self.st["I"].ex + self.st["T"].ex, self.st["I"].ex + self.st["T"].ex)
 
 
 # =================================================================================================
@@ -460,10 +466,15 @@ class LlcpDecode(object):
         import nfc.llcp.pdu as P
         self.P, self.R = P, R
         self.st = Stats(R, "llcp-decode")
+        self.exhaustive = False
 
     def check(self, b, want_depth=False):
         st = self.st
         st.n += 1
+        if self.exhaustive:
+            st.ex += 1
+        else:
+            self.R.case(("llcp-decode", b))
         try:
             p = self.P.decode(b)
         except self.P.Error as e:
@@ -485,7 +496,7 @@ class LlcpDecode(object):
     def run(self, desc, rng):
         R, shard = self.R, desc["shard"]
         lo, hi = desc["ex_first"]
-        n0 = self.st.n
+        self.exhaustive = True
         if shard == 0:
             self.check(b"")
         for a in range(lo, hi):
@@ -495,6 +506,8 @@ class LlcpDecode(object):
                 if desc["ex_len"] >= 3:
                     for c in range(256):
                         self.check(bytes([a, b, c]))
+        self.exhaustive = False
+        R.count("llcp_decode_exhaustive", self.st.ex)
         valid = llcp_valid_encodings()
         # systematic mutations of every PDU type
         for k, (name, enc) in enumerate(valid):
@@ -554,7 +567,7 @@ class LlcpDecode(object):
                 m = struct.pack(">H", rng.randrange(65536)) + m[2:]
             self.check(m, want_depth=(i % 7 == 0))
         self.st.flush()
-        R.bulk(self.st.n - n0, self.st.n - n0)
+        R.bulk(self.st.ex, self.st.ex)
 
 
 # =================================================================================================
@@ -636,10 +649,15 @@ class T3Emu(object):
         self.R = R
         self.emu = make_t3_emulation()
         self.st = Stats(R, "tt3-emulation")
+        self.exhaustive = False
 
     def check(self, cmd):
         st = self.st
         st.n += 1
+        if self.exhaustive:
+            st.ex += 1
+        else:
+            self.R.case(("tt3-emulation", cmd))
         try:
             r = self.emu.process_command(bytearray(cmd))
         except Exception as e:
@@ -662,7 +680,7 @@ class T3Emu(object):
     def run(self, desc, rng):
         R, shard = self.R, desc["shard"]
         lo, hi = desc["ex_first"]
-        n0 = self.st.n
+        self.exhaustive = True
         if shard == 0:
             self.check(b"")
         for a in range(lo, hi):
@@ -681,6 +699,8 @@ class T3Emu(object):
             for a in range(lo, hi):
                 for b in range(256):
                     self.check(t3_cmd(code, bytes([a, b])))
+        self.exhaustive = False
+        R.count("tt3_exhaustive", self.st.ex)
         tpl = t3_templates()
         for k, (name, cmd) in enumerate(tpl):
             self.check(cmd)
@@ -702,7 +722,7 @@ class T3Emu(object):
                             self.check(t3_cmd(code, (body + bytes(16))[:240]))
                             R.count("tt3_count_games", 2)
         self.st.flush()
-        R.bulk(self.st.n - n0, self.st.n - n0)
+        R.bulk(self.st.ex, self.st.ex)
 
 
 # =================================================================================================
@@ -731,10 +751,15 @@ class LlcActivate(object):
         import nfc.llcp.llc as L
         self.L, self.R = L, R
         self.st = Stats(R, "llc-activate")
+        self.exhaustive = False
 
     def check(self, role, gb):
         st = self.st
         st.n += 1
+        if self.exhaustive:
+            st.ex += 1
+        else:
+            self.R.case(("llc-activate", role, gb))
         llc = self.L.LogicalLinkController()
         try:
             r = llc.activate(fixed_gb_mac(role, gb))
@@ -754,7 +779,6 @@ class LlcActivate(object):
     def run(self, desc, rng):
         R, shard = self.R, desc["shard"]
         lo, hi = desc["ex_first"]
-        n0 = self.st.n
         for role in "IT":
             if shard == 0:
                 for gb in (None, b"", b"F", b"Ff", b"Ffm", b"Ffm\x01", b"Ffm\x01\x01", GB_GOOD, b"ffm" + GB_GOOD[3:],
@@ -765,11 +789,13 @@ class LlcActivate(object):
                     self.check(role, m)
             # magic + VERSION TLV + every 2-byte continuation; magic + every 3-byte body in this shard's slice
             step = 1 if desc["ex_len"] >= 3 else 6
+            self.exhaustive = True
             for a in range(lo, hi):
                 for b in range((a + (role == "T")) % step, 256, step):
                     self.check(role, b"Ffm\x01\x01\x13" + bytes([a, b]))
                     self.check(role, b"Ffm" + bytes([a, b, 0]))
                     self.check(role, b"Ffm" + bytes([a, b, 1, 0]))
+            self.exhaustive = False
             for t in range(0, 14):
                 for ln in (0, 1, 2, 3, 40, 255):
                     for have in (0, 1, ln, ln + 1):
@@ -778,8 +804,7 @@ class LlcActivate(object):
         for i in range(desc["act_rand"]):
             self.check("IT"[i & 1], random_mutation(rng, GB_GOOD))
         self.st.flush()
-        R.bulk(self.st.n - n0, self.st.n - n0)
-
+        R.bulk(self.st.ex, self.st.ex)
 
 
 
@@ -2407,6 +2432,15 @@ class Threaded(object):
                                          opts_b={"lto": 100, "miu": o.get("miu_b", 2175), "agf": o.get("agf", True)},
                                          before_start=before_start)
 
+    def retrying(self, fn, case):
+        """the pair runs in real time with a 110 ms link time-out: on a heavily loaded machine a thread may not be
+        scheduled in time and the link dies before anything was injected - such a set-up failure is retried"""
+        for attempt in range(4):
+            if fn(case, attempt == 0, attempt == 3) != "retry":
+                return
+            self.R.count("threaded_setup_retries")
+            real_time.sleep(0.05)
+
     def diag(self, tp):
         return "(alive A/B %s/%s, link %s/%s, exchanges %d, run_exc %r, gb %s)" % (
             tp.ta.is_alive(), tp.tb.is_alive(), tp.a.link, tp.b.link, tp.pipe.exchanges,
@@ -2458,11 +2492,15 @@ class Threaded(object):
 
     # ---- real frames mutated in flight -----------------------------------------------------------------------------
     def run_inject(self, case):
+        return self.retrying(self._inject, case)
+
+    def _inject(self, case, first, last):
         nfc, R = self.nfc, self.R
         del STARTED[:]
         del THREAD_DEATHS[:]
-        R.count("n_llc_run_threaded")
-        R.case(("llc-run-threaded", case["side"], case["at"], case["how"], case["work"], case.get("count", 1)))
+        if first:
+            R.count("n_llc_run_threaded")
+            R.case(("llc-run-threaded", case["side"], case["at"], case["how"], case["work"], case.get("count", 1)))
         servers = []
 
         def before(tp):
@@ -2491,6 +2529,10 @@ class Threaded(object):
         for srv in servers:
             srv.start()
         if not self.start_pair(tp):
+            tp.pipe.broken = tp.term_a = tp.term_b = True
+            tp.join(2.0)
+            if not last:
+                return "retry"
             R.inconc("llc-run-threaded: link was not established " + self.diag(tp))
             return
         out = {}
@@ -2532,12 +2574,16 @@ class Threaded(object):
 
     # ---- raw hostile SNEP / handover messages over a real data link connection ---------------------------------------
     def run_server(self, case):
+        return self.retrying(self._server, case)
+
+    def _server(self, case, first, last):
         nfc, R = self.nfc, self.R
         del STARTED[:]
         del THREAD_DEATHS[:]
         pos = case["pos"]
-        R.count("n_" + pos.replace("-", "_"))
-        R.case((pos, case["service"], case["frags"], case.get("after")))
+        if first:
+            R.count("n_" + pos.replace("-", "_"))
+            R.case((pos, case["service"], case["frags"], case.get("after")))
         servers = []
 
         def before(tp):
@@ -2548,6 +2594,10 @@ class Threaded(object):
         for srv in servers:
             srv.start()
         if not self.start_pair(tp):
+            tp.pipe.broken = tp.term_a = tp.term_b = True
+            tp.join(2.0)
+            if not last:
+                return "retry"
             R.inconc(pos + ": link was not established " + self.diag(tp))
             return
         got = []
@@ -2586,11 +2636,15 @@ class Threaded(object):
 
     # ---- the real SNEP client against a hostile server socket --------------------------------------------------------
     def run_client(self, case):
+        return self.retrying(self._client, case)
+
+    def _client(self, case, first, last):
         nfc, R = self.nfc, self.R
         del STARTED[:]
         del THREAD_DEATHS[:]
-        R.count("n_snep_client")
-        R.case(("snep-client", case["call"], case["frags"], case.get("first")))
+        if first:
+            R.count("n_snep_client")
+            R.case(("snep-client", case["call"], case["frags"], case.get("first")))
         box = {}
 
         def before(tp):
@@ -2628,6 +2682,10 @@ class Threaded(object):
         hs = threading.Thread(target=hostile_server, name="vf-hostile-server", daemon=True)
         hs.start()
         if not self.start_pair(tp):
+            tp.pipe.broken = tp.term_a = tp.term_b = True
+            tp.join(2.0)
+            if not last:
+                return "retry"
             R.inconc("snep-client: link was not established " + self.diag(tp))
             return
         out = {}
@@ -2665,7 +2723,7 @@ class Threaded(object):
 
     # ---- workload --------------------------------------------------------------------------------------------------
     def run(self, desc, rng):
-        R = self.R
+        self.R.count("excepthook_firings", 0)
         for i in range(desc["thr_cases"]):
             how = rng.choice([[["trunc", rng.randrange(0, 12)]], [["flip", rng.randrange(0, 8), rng.randrange(8)]],
                               [["set", rng.randrange(0, 6), rng.randrange(256)]], [["del", rng.randrange(0, 6)]],
@@ -2774,7 +2832,7 @@ class Connects(object):
         R.count("connect_card_commands", dev.frames)
 
     def run(self, desc, rng):
-        R, shard = self.R, desc["shard"]
+        shard = desc["shard"]
         nfc = self.nfc
         # ---- card emulation
         tpl = self.tpl
